@@ -72,7 +72,11 @@ Pass(P, C, i, acc) ==
    ELSE IF ~Qualifies(P, C, i) THEN Pass(P, C, i + 1, acc)
    ELSE LET r == Scan(P, C, i, 0, <<>>)
             mem == r[1]
-        IN Pass(P, C, Max(r[2], i + 1), Append(acc, [mem |-> mem, col |-> GroupCol(P, C, mem), moved |-> Len(mem) > 1]))
+            (* align_trailing_comments() returns the chunk BEHIND the one at which it stopped: when that is a comment   *)
+            (* on a line of its own (the first chunk of its line), the comment is stepped over and starts no group       *)
+            stop == r[2]
+            resume == IF stop <= Len(P) /\ P[stop].k = "cmt" THEN stop + 1 ELSE stop
+        IN Pass(P, C, Max(resume, i + 1), Append(acc, [mem |-> mem, col |-> GroupCol(P, C, mem), moved |-> Len(mem) > 1]))
 Groups(P, C) == IF span = 0 THEN <<>> ELSE Pass(P, C, 1, <<>>)
 GroupOf(gs, i) == IF \E k \in 1..Len(gs) : \E n \in 1..Len(gs[k].mem) : gs[k].mem[n] = i
                   THEN CHOOSE k \in 1..Len(gs) : \E n \in 1..Len(gs[k].mem) : gs[k].mem[n] = i
